@@ -4,22 +4,49 @@ import (
 	"context"
 	"fmt"
 	"os"
-	"time"
 
+	"github.com/codenotary/immudb/embedded/logger"
 	"github.com/codenotary/immudb/embedded/store"
 )
 
 func main() {
-	dir := os.Args[1]
-	o := store.DefaultOptions().WithSynced(true).WithSyncFrequency(time.Millisecond).WithMaxConcurrency(8).WithMaxTxEntries(4).WithMaxKeyLen(16).WithMaxValueLen(128)
-	o.WithIndexOptions(o.IndexOpts.WithFlushThld(3).WithSyncThld(3).WithMaxNodeSize(512).WithFlushBufferSize(1 << 12).WithCacheSize(32))
-	st, err := store.Open(dir, o)
+	dir, _ := os.MkdirTemp("/verif/.scratch", "scr")
+	defer os.RemoveAll(dir)
+	lg := logger.NewMemoryLoggerWithLevel(logger.LogError)
+	po := store.DefaultOptions().WithSynced(false).WithLogger(lg)
+	p, err := store.Open(dir+"/p", po)
 	if err != nil {
 		panic(err)
 	}
-	fmt.Println("pre", st.LastPrecommittedTxID(), "comm", st.LastCommittedTxID())
-	ctx, c := context.WithTimeout(context.Background(), 2*time.Second)
-	defer c()
-	fmt.Println("wait", st.WaitForIndexingUpto(ctx, st.LastCommittedTxID()))
-	st.Close()
+	ro := store.DefaultOptions().WithSynced(true).WithExternalCommitAllowance(true).WithLogger(lg)
+	r, err := store.Open(dir+"/r", ro)
+	if err != nil {
+		panic(err)
+	}
+	ctx := context.Background()
+	for i := 0; i < 5; i++ {
+		tx, _ := p.NewWriteOnlyTx(ctx)
+		tx.Set([]byte(fmt.Sprintf("k%d", i)), nil, []byte("v"))
+		tx.Commit(ctx)
+	}
+	txh := store.NewTx(8, 32)
+	rep := func(id uint64) {
+		b, err := p.ExportTx(id, true, false, txh)
+		if err != nil {
+			panic(err)
+		}
+		_, err = r.ReplicateTx(ctx, b, false, false)
+		fmt.Println("replicate", id, err)
+	}
+	rep(1)
+	rep(2)
+	r.AllowCommitUpto(1)
+	rep(3)
+	n, err := r.DiscardPrecommittedTxsSince(2)
+	fmt.Println("discard", n, err, "pre", r.LastPrecommittedTxID(), "comm", r.LastCommittedTxID())
+	rep(2)
+	rep(3)
+	rep(4)
+	p.Close()
+	r.Close()
 }
